@@ -36,7 +36,8 @@ FLOORS = {
     "quick": {"steps": 20000, "queries": 100000, "commute_checks": 2000, "rejections": 3000,
               "kind_ext": 1000, "kind_branch": 1000, "kind_mixed": 1000, "kind_leaf": 1000, "kind_mark": 500,
               "public_enumerations": 20000, "nested_with_3_lengths": 100, "nested_parent_not_shortest": 50,
-              "kind_selfseg": 500, "kind_texty": 100, "mark_unknown_among_known": 300},
+              "kind_selfseg": 500, "kind_texty": 100, "mark_unknown_among_known": 300,
+              "mark_duplicates_rejected": 1},
     "thorough": {"steps": 200000, "queries": 1000000, "commute_checks": 20000, "rejections": 30000,
                  "kind_ext": 10000, "kind_branch": 10000, "kind_mixed": 10000, "kind_leaf": 10000,
                  "kind_mark": 5000, "public_enumerations": 200000, "nested_with_3_lengths": 1000,
@@ -233,6 +234,18 @@ def run_case(case, ctx):
             if not sm:
                 break
             ps = sorted({sm[i % len(sm)] for i in step[1]})
+            # mark_all_complete(ps) is explore(p, ()) for each p in turn: by its second mention a
+            # prefix is no longer unexplored, so a list that names one twice is refused - also
+            # when the list is as long as the fog is wide and names members only
+            dups = [[ps[0], ps[0]], ps + [ps[0]], [ps[-1]] + ps]
+            if len(sm) >= 2:
+                dups += [list(sm[:-1]) + [sm[0]], [sm[0]] * len(sm), [sm[-1]] + list(sm[1:])]
+            for lst in dups:
+                r = cut(fog.mark_all_complete, lst, expect=(Exception,))
+                if not isinstance(r, Raised):
+                    raise Violation("fog-invalid-accepted", "mark_all_complete(%r) names a prefix twice (unknown by its second mention) and was accepted; "
+                                    "%d prefixes were unexplored, the result has %d" % (lst, len(sm), len(members_internal(r))))
+                ctx.count("mark_duplicates_rejected")
             nf = cut(fog.mark_all_complete, ps)
             model -= set(ps)
             ctx.count("kind_mark")
